@@ -421,7 +421,16 @@ check_for_constructor(CPPScope *current_scope, CPPScope *global_scope) {
         }
 
         CPPParameterList *params = func->_parameters;
-        if (params->_parameters.size() == 1 && !params->_includes_ellipsis) {
+        // A copy or move constructor may have further parameters if all of
+        // them have default arguments; an assignment operator has exactly one.
+        bool one_argument = !params->_parameters.empty();
+        for (size_t i = 1; i < params->_parameters.size(); ++i) {
+          if ((flags & CPPFunctionType::F_constructor) == 0 ||
+              params->_parameters[i]->_initializer == nullptr) {
+            one_argument = false;
+          }
+        }
+        if (one_argument && !params->_includes_ellipsis) {
           CPPType *param_type = params->_parameters[0]->_type;
           CPPReferenceType *ref_type = param_type->as_reference_type();
 
